@@ -1,8 +1,36 @@
 import JrsVerif.Common.J
+import JrsVerif.Model.Thunk
 
 namespace JrsVerif.Drv.C03
-open Lean JrsVerif.J
+open Lean JrsVerif.J JrsVerif.Thunk
 
-def handle (_op : String) (_j : Json) : Option Json := none
+def parseRes (s : String) : Res :=
+  if s == "infrec" then .infrec
+  else match s.splitOn ":" with
+    | ["ok", v] => .ok v.toNat!
+    | ["err", e] => .err e.toNat!
+    | _ => .infrec
+
+def showRes : Res → String
+  | .ok v => s!"ok:{v}" | .err e => s!"err:{e}" | .infrec => "infrec"
+
+/-- `gets` successive top-level reads of one cell -/
+def reads (sc : Script) : Nat → St → List Json × Nat
+  | 0, _ => ([], 0)
+  | n + 1, s =>
+    let (s', ans, inner, ran) := getScripted s sc
+    let (rest, runs) := reads sc n s'
+    (obj [("answer", .str (showRes ans)), ("inner", ofStrs (inner.map showRes)), ("ran", .bool ran)] :: rest,
+     runs + (if ran then 1 else 0))
+
+def handle (op : String) (j : Json) : Option Json :=
+  match op with
+  | "thunk.script" =>
+    match (do pure (← nat? j "reenters", ← str? j "final", ← nat? j "gets")) with
+    | none => some (bad "thunk.script: parse")
+    | some (re, fin, gets) =>
+      let (per, runs) := reads ⟨re, parseRes fin⟩ gets .waiting
+      some (obj [("model", obj [("gets", .arr per.toArray), ("runs", toJson runs)])])
+  | _ => none
 
 end JrsVerif.Drv.C03
